@@ -46,10 +46,14 @@ def cases(tier):
     # plotting switched on (a flag that must not change what is returned), more than 16 outcomes
     yield {'n': 5, 'r': max_ranks([2] * 5), 'S': [0, 1, 2, 3, 4], 'plot': True}
     for n in ([2, 3, 4] if tier == 'quick' else [2, 3, 4, 5, 6]):
-        for kind in ('ghz', 'hghz', 'ghz-hgauge', 'phase-product', 'phase-ghz'):
+        for kind in ('ghz', 'hghz', 'ghz-hgauge', 'phase-product', 'phase-ghz', 'iso-odd-complex', 'iso-even-complex'):
             for k in range(1, n + 1):
                 for S in itertools.combinations(range(n), k):
                     yield {'n': n, 'r': [1] + [2] * (n - 1) + [1], 'S': list(S), 'struct': kind}
+    if tier == 'quick':
+        for kind in ('iso-odd-complex', 'iso-even-complex'):
+            for S in ([0, 2, 4], [1, 3], [0, 2], [2, 4], [0, 4], [1, 3, 4], [0, 1, 2, 3, 4]):
+                yield {'n': 5, 'r': [1, 2, 2, 2, 2, 1], 'S': list(S), 'struct': kind}
     for n in ([1, 2, 3, 4] if tier == 'quick' else [1, 2, 3, 4, 5, 6]):
         mr = max_ranks([2] * n)
         alph = sorted({1, 2, max(mr)})
@@ -99,6 +103,17 @@ def run_case(case, seed):
                         Hm = np.array([[1.0, 1.0], [1.0, -1.0]]) / np.sqrt(2)
                         c = np.einsum('st,atcb->ascb', Hm, c)
                 cores.append(c)
+        if case['struct'] in ('iso-odd-complex', 'iso-even-complex'):
+            # every core a row isometry by itself (a right-orthonormal, normalised chain as it stands), bond rank 2; complex dtype only
+            # at the odd (even) sites, real dtype at the others -- so a measured subset can consist of real-dtype cores only
+            cores = []
+            par = 1 if case['struct'] == 'iso-odd-complex' else 0
+            for i in range(n):
+                rl = 1 if i == 0 else 2; rr = 1 if i == n - 1 else 2
+                cx = i % 2 == par
+                a_ = rng.standard_normal((2 * rr, rl)) + (1j * rng.standard_normal((2 * rr, rl)) if cx else 0)
+                q_ = np.linalg.qr(a_)[0]                       # (2 rr, rl) with orthonormal columns
+                cores.append(np.ascontiguousarray(q_.conj().T).reshape(rl, 2, 1, rr))
         if case['struct'] == 'hghz':
             cores = [np.einsum('st,atcb->ascb', H2, c) for c in cores]
         elif case['struct'] == 'ghz-hgauge':
